@@ -39,6 +39,75 @@ impl Iterator for Announce {
     }
 }
 
+/// an iterator of the items 1..=n that reports the given (truthful) size hint
+struct Hinted {
+    n: u8,
+    next: u8,
+    hint: (usize, Option<usize>),
+}
+impl Iterator for Hinted {
+    type Item = u8;
+    fn next(&mut self) -> Option<u8> {
+        if self.next < self.n {
+            self.next += 1;
+            Some(self.next)
+        } else {
+            None
+        }
+    }
+    fn size_hint(&self) -> (usize, Option<usize>) {
+        self.hint
+    }
+}
+struct HintedValue(u8, (usize, Option<usize>));
+impl desert_core::BinarySerializer for HintedValue {
+    fn serialize<O: desert_core::BinaryOutput>(&self, ctx: &mut SerializationContext<O>) -> desert_core::Result<()> {
+        serialize_iterator(&mut Hinted { n: self.0, next: 0, hint: self.1 }, ctx)
+    }
+}
+
+/// hints: [[[min, kind, max], n, bytes], ..] - the form the size hint selects and nothing else (MC_EncTotal!HintBytes)
+fn hints(cases: &[Value], r: &mut Report) {
+    for c in cases {
+        let h = &c[0];
+        let min = h[0].as_u64().unwrap() as usize;
+        let max = match h[1].as_str().unwrap() {
+            "none" => None,
+            "some" => Some(h[2].as_u64().unwrap() as usize),
+            "usizeMax" => Some(usize::MAX),
+            "2^31" => Some(1usize << 31),
+            "2^32" => Some(1usize << 32),
+            _ => Some(usize::MAX - 1),
+        };
+        let n = c[1].as_u64().unwrap() as u8;
+        let want = crate::runner::bytes_of(&c[2]);
+        let v = HintedValue(n, (min, max));
+        let runs: [(&str, Box<dyn Fn() -> desert_core::Result<Vec<u8>> + '_>); 4] = [
+            ("serialize_to_byte_vec", Box::new(|| serialize_to_byte_vec(&v))),
+            ("serialize_to_bytes", Box::new(|| desert_core::serialize_to_bytes(&v).map(|b| b.to_vec()))),
+            ("context over a used Vec", Box::new(|| {
+                let mut ctx = SerializationContext::new(vec![0xEEu8; 3]);
+                desert_core::BinarySerializer::serialize(&v, &mut ctx).map(|_| ctx.into_output()[3..].to_vec())
+            })),
+            ("inside a tuple", Box::new(|| serialize_to_byte_vec(&(7u8, HintedValueRef(&v))).map(|b| b[2..].to_vec()))),
+        ];
+        for (name, run) in runs.iter() {
+            r.count("size_hint");
+            let got = guarded(|| run());
+            if !matches!(&got, Ok(Ok(b)) if *b == want) {
+                r.finding("size_hint", &["C17", "C07"], json!({"hint": h, "items": n, "entry": name, "want": want,
+                    "got": match &got { Ok(Ok(b)) => json!(b), Ok(Err(e)) => json!(e.to_string()), Err(p) => json!({"panic": p}) }}));
+            }
+        }
+    }
+}
+struct HintedValueRef<'a>(&'a HintedValue);
+impl desert_core::BinarySerializer for HintedValueRef<'_> {
+    fn serialize<O: desert_core::BinaryOutput>(&self, ctx: &mut SerializationContext<O>) -> desert_core::Result<()> {
+        desert_core::BinarySerializer::serialize(self.0, ctx)
+    }
+}
+
 fn count_of(class: &str) -> usize {
     match class {
         "i32max" => i32::MAX as usize,
@@ -51,6 +120,9 @@ fn count_of(class: &str) -> usize {
 /// {"kind":"lengths","cases":[[kind,class,outcome],..],"big":bool}
 pub fn lengths_case(case: &Value, _d: Dispatch, r: &mut Report) {
     let big = case["big"].as_bool().unwrap_or(false);
+    if let Some(h) = case["hints"].as_array() {
+        hints(h, r);
+    }
     for c in case["cases"].as_array().unwrap() {
         let (kind, class, want) = (c[0].as_str().unwrap(), c[1].as_str().unwrap(), c[2].as_str().unwrap());
         let n = count_of(class);
